@@ -7,6 +7,7 @@ VARIABLES sc, d, pc, stale, fin, src, reord
 vars == <<sc, d, pc, stale, fin, src, reord>>
 CNeg1 == -1
 CNeg2 == -2
+CNeg3 == -3
 
 Eq(lhs, tr, terms, const) == [lhs |-> lhs, tr |-> tr, terms |-> terms, const |-> const, identity |-> FALSE]
 Id(lhs, terms, const)     == [lhs |-> lhs, tr |-> "none", terms |-> terms, const |-> const, identity |-> TRUE]
@@ -28,8 +29,11 @@ Models == [
   \* no lag on any right-hand side: the only lags are those implied by the left-hand transforms
   MF |-> << Eq("x", "diff", <<>>, 1),
             Eq("u", "roc", << <<1, "x", 0, "lin">> >>, 0),
-            Id("z", << <<1, "x", 0, "lin">>, <<1, "u", 0, "lin">> >>, 0) >> ]
-ModelIds == {"MA", "MB", "MC", "MD", "ME", "MF"}
+            Id("z", << <<1, "x", 0, "lin">>, <<1, "u", 0, "lin">> >>, 0) >>,
+  \* the deepest lag of the model occurs in an identity only
+  MG |-> << Eq("x", "none", << <<2, "x", CNeg1, "lin">> >>, 1),
+            Id("z", << <<1, "x", 0, "lin">>, <<1, "x", CNeg3, "lin">> >>, 0) >> ]
+ModelIds == {"MA", "MB", "MC", "MD", "ME", "MF", "MG"}
 Span == <<1, 2, 3>>
 Periods == CNeg2..3
 
@@ -39,7 +43,8 @@ PlanPairs == [MA |-> {<<"x", "none">>, <<"x", "diff">>, <<"y", "none">>, <<"y", 
               MC |-> {<<"r", "diff_log">>, <<"r", "log">>, <<"p", "log">>},
               MD |-> {<<"x", "none">>, <<"y", "diff">>},
               ME |-> {<<"x", "diff">>, <<"y", "none">>},
-              MF |-> {<<"x", "none">>, <<"x", "diff">>, <<"u", "roc">>}]
+              MF |-> {<<"x", "none">>, <<"x", "diff">>, <<"u", "roc">>},
+              MG |-> {<<"x", "none">>}]
 \* thorough tier: Deep <- DeepOn in the cfg (more exogenized period patterns, pairs of plan entries over more masks)
 Deep == FALSE
 DeepOn == TRUE
